@@ -76,6 +76,170 @@ def single_origin_attempt_rule(run, fr):
                   '%s is set when the lookup starts but not cleared on every path of on_domain_lookup: after a failed lookup no later request ever connects' % fld, 'cleared on every path of the lookup completion')
 
 
+def _is_aborted_atom(fn, atom):
+    """truth value of a guard atom in the state "this completion was delivered operation_aborted" (None: not decided)"""
+    t = q.render(fn, q.strip_casts(atom)).replace('this->', '')
+    c = q.cmp_atom(atom)
+    if c and c[0] in ('==', '!=') and any('operation_aborted' in q.render(fn, x) for x in c[1:]):
+        return c[0] == '=='
+    if t in ('ec', 'e', 'err', 'error'):
+        return True
+    return None
+
+
+def aborted_completion_rule(run, cls, closer, acts, skip=()):
+    """close_connection() closes both sockets AND re-arms the accept, which can attach a connection that was waiting in the
+    listen queue at once.  The completions it has just aborted are delivered afterwards - to the next client's session.
+    So no completion bound on the session sockets may act (close again, write an error reply, touch the origin connection)
+    when it is delivered operation_aborted: every such call is unreachable in the state ec == operation_aborted, and the
+    closer itself is never bound directly as a completion."""
+    fx = run.fx
+    bound = handlers.bound_member_functions(fx)
+    n = 0
+    for usr, lst in sorted(bound.items()):
+        tg = fx.by_usr(usr)
+        if not tg or tg[0].cls != cls or tg[0].cfg is None:
+            continue
+        g = tg[0]
+        if g.name.split('::')[-1] in skip:
+            continue
+        run.touch(g)
+        n += 1
+        if g.norm == closer:
+            d, fn_, nd_ = lst[0]
+            run.violation('R5', 'aborted-completion-inert', '%s bound in %s' % (g.norm, fn_.norm), fn_.loc(nd_),
+                          '%s is bound directly as a completion: it runs also when the operation was aborted by an earlier close_connection(), i.e. it closes the connection of the NEXT client, which that close_connection() has already accepted from the listen queue' % g.norm)
+            continue
+        calls = [c for c in g.calls() if q.callee_name(c) in acts]
+        if not calls:
+            run.ok('R5', 'aborted-completion-inert', g.norm, g.loc(), 'calls none of %s' % sorted(a.split('::')[-1] for a in acts))
+            continue
+        bad = [c for c in calls if q.reachable_under(g, None, [c], lambda atom, g=g: _is_aborted_atom(g, atom))]
+        run.check(not bad, 'R5', 'aborted-completion-inert', g.norm, g.loc(bad[0]) if bad else g.loc(),
+                  '%s reaches %s when it is delivered operation_aborted: the operation was aborted by close_connection(), which has already re-armed the accept and may have attached the next client from the listen queue - that client is closed (or is written a stale error reply) by a completion of its predecessor and gets EOF without an answer'
+                  % (g.norm.split('::')[-1], (q.callee_name(bad[0]) or '').split('::')[-1] if bad else ''), 'no action is reachable under ec == operation_aborted')
+    return n
+
+
+def connecting_latch_rule(run, fr):
+    """While the connect to the origin is outstanding the socket is open but not connected: a pipelined request arriving
+    then must neither write to it (the write fails with not_connected and closes the client before the 503 / the relay)
+    nor open it again.  forward_request() therefore does not reach write_server_send_buffer() while the connect is
+    outstanding: a bool latch set by open_forward_connection() before async_connect, tested by forward_request() ahead of
+    the write, and released by on_connected() and close_connection()."""
+    fx = run.fx
+    ofc = fx.fn1(H + '::open_forward_connection')
+    onc = fx.fn1(H + '::on_connected')
+    cc = fx.fn1(H + '::close_connection')
+    for g_ in (ofc, onc, cc):
+        run.touch(g_)
+    conn = [c for c in ofc.calls() if (q.callee_name(c) or '').endswith('::async_connect')]
+    if not conn:
+        run.broke('open_forward_connection no longer calls async_connect')
+    bool_assigns = lambda g_, val: {a.field.split('::')[-1]: a.site for a in q.field_accesses(g_) if a.kind == 'assign' and a.field.startswith(H + '::') and is_node(a.site) and a.site['k'] == 'bin' and q.strip_casts(a.site['rhs']).get('v') is val}
+    latches = [fld for fld, site in bool_assigns(ofc, True).items() if all(q.precedes(ofc, site, c) for c in conn)]
+    writes = [c for c in fr.calls() if q.callee_name(c) == H + '::write_server_send_buffer']
+    ok, how = False, 'no bool member is set by open_forward_connection() before async_connect'
+    for fld in latches:
+        held = lambda atom, fld=fld: True if q.render(fr, q.strip_casts(atom)).replace('this->', '') == fld else None
+        guarded = bool(writes) and not any(q.reachable_under(fr, None, [w], held) for w in writes)
+        rel1 = fld in bool_assigns(onc, False) and not q.exit_reachable_under(onc, None, [bool_assigns(onc, False)[fld]], lambda atom: False if 'operation_aborted' in q.render(onc, atom) else None)
+        rel2 = fld in bool_assigns(cc, False) and q.on_all_paths(cc, [bool_assigns(cc, False)[fld]])
+        if guarded and rel1 and rel2:
+            ok, how = True, 'latch %s' % fld
+            break
+        how = 'latch %s: %s' % (fld, 'forward_request() still reaches write_server_send_buffer() while it is set' if not guarded else ('on_connected() does not release it on every path' if not rel1 else 'close_connection() does not release it'))
+    run.check(ok, 'R4', 'no-write-while-connecting', H + '::forward_request', fr.loc(writes[0]) if writes else fr.loc(),
+              'a request that arrives while the connect to the origin is outstanding (%s) is written to the unconnected socket: the write fails with not_connected, its completion closes the client, and a client pipelining to an origin that refuses gets a bare close instead of the 503 (a single request gets the 503)' % how, how)
+
+
+def named_origin_rule(run, fr, appends):
+    """All requests of a client connection are written to ONE origin connection.  A request naming another host or port must
+    therefore not be appended to that connection's pipeline: forward_request() latches the (host, port) the first request
+    named in members and no append is reachable when the request's host or port differs from the latch."""
+    fx = run.fx
+    loc = {}
+    for n in fr.all_nodes():
+        if n['k'] == 'decl':
+            for v in n['vars']:
+                if v.get('name') in ('host', 'port'):
+                    loc[v['name']] = v['did']
+    if set(loc) != {'host', 'port'}:
+        run.unrecognised('R5', 'request-goes-to-named-origin', H + '::forward_request', fr.loc(), 'the locals host/port are no longer declared (URI splitting idiom changed)')
+        return
+    latch = {}
+    for a in q.field_accesses(fr):
+        if a.kind == 'assign' and a.field.startswith(H + '::') and is_node(a.site):
+            rhs = a.site.get('rhs') if a.site['k'] == 'bin' else (a.site.get('args') or [None, None])[1]
+            r_ = q.strip_casts(rhs) if is_node(rhs) else None
+            if is_node(r_) and r_['k'] == 'ref' and r_.get('did') in loc.values():
+                latch[[k for k, v in loc.items() if v == r_['did']][0]] = a.field.split('::')[-1]
+    if set(latch) != {'host', 'port'}:
+        run.violation('R5', 'request-goes-to-named-origin', H + '::forward_request', fr.loc(),
+                      'forward_request() does not remember which (host, port) the origin connection was opened for (latched: %s): a later request on the same client connection naming ANOTHER host or port is written to the first origin, whose answer is relayed as if it came from the named one' % (latch or 'nothing'))
+        return
+    for which in ('host', 'port'):
+        m = latch[which]
+        def differs(atom, which=which, m=m):
+            t = q.render(fr, q.strip_casts(atom)).replace('this->', '')
+            if t in ('%s.empty()' % latch['host'], '(%s.size() == 0)' % latch['host']):
+                return False            # a latch is set: not the first request
+            c = q.cmp_atom(atom)
+            if c and c[0] in ('==', '!='):
+                sides = {q.render(fr, q.strip_casts(x)).replace('this->', '') for x in c[1:]}
+                if sides == {which, m}:
+                    return c[0] == '!='
+            return None
+        bad = [c for c in appends if q.reachable_under(fr, None, [c], differs)]
+        run.check(not bad, 'R5', 'request-goes-to-named-origin', '%s: %s vs %s' % (H + '::forward_request', which, m), fr.loc(bad[0]) if bad else fr.loc(),
+                  'a request whose %s differs from the one the origin connection was opened for (%s) is still appended to that connection\'s pipeline: it is sent to the wrong origin and that server\'s answer is relayed to the client' % (which, m),
+                  'no append is reachable when %s != %s' % (which, m))
+    cc = fx.fn1(H + '::close_connection')
+    clr = [a.site for a in q.field_accesses(cc, {H + '::' + latch['host']}) if (a.kind == 'method' and a.method == 'clear') or a.kind == 'assign']
+    run.check(bool(clr) and q.on_all_paths(cc, clr), 'R5', 'request-goes-to-named-origin', H + '::close_connection releases ' + latch['host'], cc.loc(),
+              'close_connection() keeps the latched origin: the next client\'s first request is compared with its predecessor\'s origin and refused', 'the latch is cleared on every path of close_connection()')
+
+
+def read_has_room_rule(run, fn_names):
+    """A read into `sizeof(buf) - n` bytes completes immediately with 0 bytes once n == sizeof(buf): with a request head that
+    fills the buffer without its terminator the handler re-issues the zero-length read forever at one virtual instant and
+    simulation::run() never returns.  Every such read is dominated by a test that the buffer still has room."""
+    fx = run.fx
+    n = 0
+    for name in fn_names:
+        g = fx.fn1(name)
+        run.touch(g)
+        for c in g.calls():
+            if not (q.callee_name(c) or '').split('<')[0].endswith('async_read_some'):
+                continue
+            txt = q.render(g, c)
+            bufc = [x for x in walk(c) if x['k'] == 'call' and (q.callee_name(x) or '').split('<')[0].endswith('::buffer') and len(x.get('args', [])) == 2]
+            for b in bufc:
+                size = q.strip_casts(b['args'][1])
+                if not (is_node(size) and size['k'] == 'bin' and size['op'] == '-'):
+                    continue
+                cap, used = q.render(g, q.strip_casts(size['lhs'])), q.render(g, q.strip_casts(size['rhs']))
+                n += 1
+                room = False
+                for at, pol in q.guards_at(g, c):
+                    cm = q.cmp_atom(at)
+                    if not cm:
+                        continue
+                    op, l, r = cm[0], q.render(g, q.strip_casts(cm[1])), q.render(g, q.strip_casts(cm[2]))
+                    strip = lambda t_: t_.replace('int(', '').replace('std::size_t(', '').replace('size_t(', '').rstrip(')') if t_.count('(') > t_.count(')') - 1 and ('int(' in t_ or 'size_t(' in t_) else t_
+                    l, r = strip(l), strip(r)
+                    if not pol:
+                        op = q.NEG[op]
+                    if l == cap.replace('int(', '') or cap in l:
+                        op, l, r = q.SWAP[op], r, l
+                    if l == used and (cap in r or r in cap) and op == '<':
+                        room = True
+                run.check(room, 'R11', 'read-has-room', '%s: read into %s - %s' % (g.norm, cap[:40], used), g.loc(c),
+                          'the read into the rest of the buffer (%s - %s bytes) is issued without a dominating test that any room is left: a request head that fills the buffer without its terminating empty line makes the read complete with 0 bytes at once, again and again at one virtual instant - simulation::run() never returns and no later client or timer runs' % (cap, used),
+                          'dominated by %s < %s' % (used, cap))
+    return n
+
+
 def check(run):
     fx = run.fx
     f = lambda n: fx.fn1(H + '::' + n)
@@ -132,6 +296,16 @@ def check(run):
     if not mm:
         run.broke('forward_request no longer appends to m_server_out_buffer')
     single_origin_attempt_rule(run, fr)
+    connecting_latch_rule(run, fr)
+    run.clause('each request goes to the host and port it names: one client connection has one origin connection, and a request naming another origin is never appended to its pipeline')
+    named_origin_rule(run, fr, list(mm))
+    run.clause('a completion aborted by close_connection() does nothing: close_connection() has re-armed the accept and the next client may own the sockets already')
+    nab = aborted_completion_rule(run, H, H + '::close_connection', {H + '::close_connection', H + '::error', H + '::write_server_send_buffer', H + '::open_forward_connection'}, skip=('on_accept',))
+    if nab < 6:
+        run.broke('only %d completions bound by http_proxy found (on_read_request, on_domain_lookup, on_connected, on_server_write, on_server_receive, on_server_forward, on_error_sent)' % nab)
+    run.clause('the proxy never spins on a full request buffer: a read into the remaining room is issued only when there is room')
+    if read_has_room_rule(run, [H + '::on_read_request']) < 1:
+        run.broke('on_read_request: no read into sizeof(buffer) - count found')
     # every request that passes validation is queued for the origin, whatever the state of the connection
     okq = bool(mm) and q.on_all_paths(fr, [c for c in mm] + [n_ for n_ in fr.all_nodes() if n_['k'] == 'throw'])      # a rejected request leaves by throw
     run.check(okq, 'R4', 'request-always-queued', H + '::forward_request', fr.loc(),
@@ -214,7 +388,18 @@ def check(run):
     run.touch(er)
     w = [c for c in er.calls() if q.callee_name(c) == 'boost::asio::async_write']
     cc = f('close_connection')
-    run.check(len(w) == 1 and cc.usr in bound_fn(er, w[0]) and 'm_client_connection' in q.render(er, w[0]), 'R4', 'error-then-close', H + '::error', er.loc(), 'the error response is not written to the client with close_connection as its completion', 'written to the client, then the connection is closed')
+    def _closes(usr):
+        """the completion closes the connection on every path on which it was not aborted"""
+        if usr == cc.usr:
+            return True
+        gs = [g_ for g_ in fx.by_usr(usr) if g_.cfg is not None]
+        if not gs:
+            return False
+        g_ = gs[0]
+        run.touch(g_)
+        ccs = [c for c in g_.calls() if c.get('usr') == cc.usr]
+        return bool(ccs) and not q.exit_reachable_under(g_, None, ccs, lambda atom: (False if _is_aborted_atom(g_, atom) is True and 'operation_aborted' in q.render(g_, atom) else None))
+    run.check(len(w) == 1 and any(_closes(u) for u in bound_fn(er, w[0])) and 'm_client_connection' in q.render(er, w[0]), 'R4', 'error-then-close', H + '::error', er.loc(), 'the error response is not written to the client with close_connection as its completion', 'written to the client, then the connection is closed')
 
     run.clause('(5) the host/port separator of the absolute URI is searched from the END of the authority (a forward search for \':\' stops inside a bracketed IPv6 literal)')
     colon = []
